@@ -503,3 +503,64 @@ pub async fn ret_cancel(seed: u64) {
     tr(json!({"ev": "all_dropped"}));
     conn.teardown().await;
 }
+
+
+/// Hostile peer on a stream transport (C08, frame length cap): a typed connection over `Connect::io`; after some
+/// traffic the victim's incoming byte stream carries a frame whose length prefix exceeds the victim's
+/// max_frame_length (MAX_MSG_LENGTH + its chunk size), followed by only a few bytes.  The victim must end the
+/// connection with an error right away - not wait for (or buffer) the announced number of bytes - and every local
+/// user must observe an error.
+pub async fn stream_hostile(seed: u64) {
+    let mut rng = Rng::new(seed ^ 0x57E4);
+    let (ca, cb) = (upper_cfg(&mut rng), upper_cfg(&mut rng));
+    let max_a = ca.to_cfg().max_frame_length() as usize;
+    tr(json!({"ev": "reset", "seed": seed, "wl": "stream_hostile", "cfg": [ca.json(), cb.json()], "max_frame": max_a}));
+    install_spawn_policy(seed, 1, 4);
+    FORCE_STREAM.store(2, std::sync::atomic::Ordering::SeqCst);
+    let conn = rem_connect::<u32, u32>(&ca, &cb, seed, 0).await;
+    FORCE_STREAM.store(0, std::sync::atomic::Ordering::SeqCst);
+    let links = conn.links();
+    let RemConn { mut a_tx, mut a_rx, mut b_tx, mut b_rx, ab: _, ba, conn: chs, pump } = conn;
+    // some healthy traffic in both directions
+    for v in 1..=rng.range(1, 4) as u32 {
+        let (s, r) = tokio::join!(a_tx.send(v), b_rx.recv());
+        tr(json!({"ev": "sh_item", "dir": 1, "sent": s.is_ok(), "got": r.ok().flatten().map(|x| x as i64).unwrap_or(-1), "v": v}));
+        let (s, r) = tokio::join!(b_tx.send(v + 100), a_rx.recv());
+        tr(json!({"ev": "sh_item", "dir": 2, "sent": s.is_ok(), "got": r.ok().flatten().map(|x| x as i64).unwrap_or(-1), "v": v + 100}));
+    }
+    // the oversized frame: its true length is what the stream adapter announces in the prefix; the victim only ever
+    // gets to see the prefix and a few bytes of it (the rest is withheld by stalling the link)
+    let over = match rng.below(3) {
+        0 => max_a + 1,
+        1 => max_a + rng.range(2, 200) as usize,
+        _ => max_a * 4 + 1000,
+    };
+    tr(json!({"ev": "sh_inject", "len": over, "max": max_a}));
+    STREAM_WITHHOLD.store(over, std::sync::atomic::Ordering::SeqCst);
+    ba.inject(Bytes::from(vec![0x5Au8; over]));
+    let [ha, hb] = chs;
+    let mut handles = vec![spawn_d(1, async move {
+        let r = ha.await;
+        let ok = matches!(r, Ok(Ok(())));
+        tr(json!({"ev": "sh_conn_end", "ep": 1, "ok": ok}));
+    })];
+    let left = wait_tasks(&mut handles, &links, 3000).await;
+    // local users of the victim observe an error
+    let send_ok = patient(a_tx.send(7), 2000, 300).await.map(|r| r.is_ok()).unwrap_or(true);
+    let recv_err = match patient(a_rx.recv(), 2000, 300).await {
+        Some(Ok(Some(_))) => false,
+        Some(Ok(None)) => false,
+        Some(Err(_)) => true,
+        None => false,
+    };
+    STREAM_WITHHOLD.store(0, std::sync::atomic::Ordering::SeqCst);
+    tr(json!({"ev": "sh_after", "conn_pending": left, "send_ok": send_ok, "recv_err": recv_err}));
+    for h in handles {
+        h.abort();
+    }
+    hb.abort();
+    pump.abort();
+    drop(b_tx);
+    drop(b_rx);
+    settle().await;
+}
